@@ -6,6 +6,7 @@ package eng
 
 import (
 	"crypto/sha1"
+	"encoding/hex"
 	"encoding/json"
 	"fmt"
 	"os"
@@ -14,6 +15,7 @@ import (
 	"sort"
 	"strings"
 	"time"
+	"unicode/utf8"
 
 	"github.com/markusmobius/go-domdistiller/verifrt"
 )
@@ -30,6 +32,53 @@ type Case struct {
 	Nil   bool              `json:"nil_opts,omitempty"`
 	P     map[string]string `json:"p,omitempty"`
 	Ch    []int             `json:"choices,omitempty"`
+}
+
+// Cases cross process boundaries and go to replay files as JSON; bytes that are not valid UTF-8
+// (byte-token inputs of C01/C11) would be replaced there, so they travel hex-encoded.
+type caseJSON struct {
+	Kind    string            `json:"kind,omitempty"`
+	HTML    string            `json:"html,omitempty"`
+	HTMLHex string            `json:"html_hex,omitempty"`
+	URL     string            `json:"url,omitempty"`
+	Algo    int               `json:"algo,omitempty"`
+	Flags   uint              `json:"flags,omitempty"`
+	Skip    bool              `json:"skip,omitempty"`
+	Nil     bool              `json:"nil_opts,omitempty"`
+	P       map[string]string `json:"p,omitempty"`
+	Ch      []int             `json:"choices,omitempty"`
+}
+
+func (c Case) MarshalJSON() ([]byte, error) {
+	j := caseJSON{Kind: c.Kind, HTML: c.HTML, URL: c.URL, Algo: c.Algo, Flags: c.Flags, Skip: c.Skip, Nil: c.Nil, P: c.P, Ch: c.Ch}
+	if !utf8.ValidString(c.HTML) {
+		j.HTML, j.HTMLHex = "", hex.EncodeToString([]byte(c.HTML))
+	}
+	if j.P != nil {
+		// descriptions are for humans: make them valid UTF-8
+		p := make(map[string]string, len(j.P))
+		for k, v := range j.P {
+			p[k] = strings.ToValidUTF8(v, "\uFFFD")
+		}
+		j.P = p
+	}
+	return json.Marshal(j)
+}
+
+func (c *Case) UnmarshalJSON(b []byte) error {
+	var j caseJSON
+	if err := json.Unmarshal(b, &j); err != nil {
+		return err
+	}
+	*c = Case{Kind: j.Kind, HTML: j.HTML, URL: j.URL, Algo: j.Algo, Flags: j.Flags, Skip: j.Skip, Nil: j.Nil, P: j.P, Ch: j.Ch}
+	if j.HTMLHex != "" {
+		raw, err := hex.DecodeString(j.HTMLHex)
+		if err != nil {
+			return err
+		}
+		c.HTML = string(raw)
+	}
+	return nil
 }
 
 func (c *Case) Key() string {
